@@ -179,11 +179,26 @@ def validate_traces(traces, label="pipeline"):
     return False, bad, r
 
 
+def prove_contract():
+    """TLAPS: Contract (=> ExitIff, Untouched, WriteLast) is an inductive invariant of Pipeline for every scenario and bound"""
+    import re
+    import tempfile
+    d = tempfile.mkdtemp(prefix="tlaps-", dir=core.scratch())
+    for f in ("Pipeline.tla", "PipelineProofs.tla"):
+        shutil.copy(os.path.join(core.SPEC, f), d)
+    p = core.sh(["tlapm", "--threads", str(min(8, core.NCPU)), "PipelineProofs.tla"], cwd=d, check=False, timeout=900, env=dict(os.environ))
+    m = re.search(r"All (\d+) obligations? proved", p.stdout)
+    if not m:
+        raise core.InfraError("TLAPS could not discharge the proof of the pipeline contract:\n" + p.stdout[-2000:])
+    return int(m.group(1))
+
+
 def run_c10(tier):
     pid = "C10"
     t0 = time.time()
     rng = random.Random(core.seed())
     v = core.Verdict(pid)
+    obligations = prove_contract()
     r = core.run_tlc("MC_Pipeline.tla", "MC_Pipeline_%s.cfg" % tier, timeout=1500)
     if r.violation:
         raise core.InfraError("TLC: design-level invariant violated in MC_Pipeline:\n" + r.raw_tail[-2000:])
@@ -301,6 +316,8 @@ def run_c10(tier):
         "distinct_(failing step, -o state)_classes": len(classes), "exhaustive": True,
         "design_invariants_checked_by_tlc": ["ExitIff", "Untouched", "ExitRange", "CountMatch", "OneFailLast", "InOrder",
                                              "WriteLast", "RulesAllRun"],
+        "tlaps": {"module": "PipelineProofs.tla", "theorem": "Contract is inductive for every scenario and error bound; Contract => ExitIff /\\ Untouched /\\ WriteLast",
+                  "obligations": obligations, "discharged": obligations},
         "known_findings_hit": {k: n for k, (f, n) in v.known_hit.items()},
     }, time.time() - t0, violations=len(v.violations),
         assumptions=["faults that cannot be injected as root (EACCES, ENOSPC, short writes) are not explored",
